@@ -313,11 +313,11 @@ static int tls_send(struct xcm_socket *__restrict s,
 
     mbuf_set(&ts->conn.send_mbuf, buf, len);
 
-    LOG_SEND_ACCEPTED(s, buf, len);
-    XCM_TP_CNT_MSG_INC(ts->conn.cnts, from_app, len);
-
     if (try_finish_send(s) < 0 && errno != EAGAIN)
 	goto err;
+
+    LOG_SEND_ACCEPTED(s, buf, len);
+    XCM_TP_CNT_MSG_INC(ts->conn.cnts, from_app, len);
 
     return 0;
 
